@@ -399,7 +399,15 @@ def main():
             kani_units = [k for k in kani_units if k['name'] == args.unit]
     except ImportError:
         kani_lane = None
-    if not tpls and not kani_units:
+    kx_units = []
+    try:
+        import kani_extract
+        kx_units = kani_extract.units_for(prop, tier)
+        if args.unit:
+            kx_units = [k for k in kx_units if k['name'] == args.unit]
+    except ImportError:
+        kani_extract = None
+    if not tpls and not kani_units and not kx_units:
         print('no units serve %s' % prop)
         sys.exit(2)
 
@@ -412,6 +420,8 @@ def main():
             kres = []
             if kani_units:
                 kres = kani_lane.run(prop, kani_units, scratch, tier, REPO)
+            if kx_units:
+                kres += kani_extract.run(prop, kx_units, scratch, tier, REPO)
             for f in futs:
                 results.append(f.result())
             results += kres
